@@ -10,6 +10,7 @@ import YorkieModel.Driver.SplayEngine
 import YorkieModel.Driver.TreeListEngine
 import YorkieModel.Driver.LlrbEngine
 import YorkieModel.Driver.TextEngine
+import YorkieModel.Driver.LocksEngine
 open Yorkie.Driver
 
 def engines : List (String × Engine) := [
@@ -24,7 +25,8 @@ def engines : List (String × Engine) := [
   ("treelist", TreeListEngine.engine),
   ("llrb", LlrbEngine.engine),
   ("text", TextEngine.engine),
-  ("textif", TextEngine.engine)
+  ("textif", TextEngine.engine),
+  ("locks", LocksEngine.engine)
 ]
 
 partial def loop (e : Engine) (h : IO.FS.Stream) (out : IO.FS.Stream) (st : e.State) : IO Unit := do
